@@ -187,12 +187,12 @@ explore.GENERATORS.update({"c13": gen_c13, "c16": gen_c16, "c09": gen_c09, "path
 FAM_ALL = {}
 PROFILES = {
     "C01": [("random", {"fam": {"p_async": 0.2}}), ("random", {"fam": {"nsims": (3, 5), "nconns": (3, 7)}, "policy": {"early": 0.6}, "behaviour": {"p_none": 0.15}})],
-    "C02": [("random", {"fam": {"p_async": 0.1}, "behaviour": {"p_future": 0.4, "ev_next": [None, 1, 2, 3]}}),
+    "C02": [("random", {"fam": {"p_async": 0.1}, "behaviour": {"p_future": 0.4, "ev_next": [None, 1, 2, 3], "p_extra": 0.15}}),
             # (None, 0, "", False, lists and dictionaries are legal output VALUES: they trigger and travel like any other)
             ("random", {"fam": {"types": ["event-based", "hybrid"], "until": (3, 5)}, "behaviour": {"p_future": 0.5, "future": [0, 1, 2, 3], "p_none": 0.3}}),
             ("random", {"fam": {"nsims": (8, 11), "nconns": (6, 14), "until": (2, 3), "weak": 0.2}, "frac": 0.08}),
             ("pending", {"frac": 0.15})],
-    "C03": [("random", {"fam": {"shifts": (0, 0, 1, 2, 3), "until": (3, 5), "p_two_entities": 0.4}}),
+    "C03": [("random", {"fam": {"shifts": (0, 0, 1, 2, 3), "until": (3, 5), "p_two_entities": 0.4}, "behaviour": {"p_extra": 0.15}}),
             ("random", {"fam": {"groups": False, "nsims": (2, 3), "until": (4, 6), "types": ["time-based", "time-based", "hybrid"]},
                         "behaviour": {"tb_next": [1, 1, 2, 3], "recur": 2}, "frac": 0.4}),
             ("random", {"fam": {"groups": False, "nsims": (2, 3), "until": (3, 6)}, "behaviour": {"tb_next": [1, 2, 4], "p_future": 0.3, "p_none": 0.2}})],
